@@ -57,7 +57,7 @@ pub struct NetCfg {
 #[serde(tag = "op")]
 pub enum NetOp {
     Connect,
-    Send { ep: u8, vital: bool, len: u16, fill: u8, tag: u32 },
+    Send { ep: u8, vital: bool, len: u32, fill: u8, tag: u32 },
     Flush { ep: u8 },
     Tick { ep: u8 },
     Advance { ep: u8, usec: u64 },
@@ -66,9 +66,22 @@ pub enum NetOp {
     Dup { dir: u8, pick: i32 },
     SendErr { ep: u8, n: u8 },
     Disconnect { ep: u8, reason_len: u8, tag: u32 },
-    SendConnless { ep: u8, len: u16, tag: u32 },
+    SendConnless { ep: u8, len: u32, tag: u32 },
     Inject { ep: u8, kind: u8, salt: u64 },
     FairSuffix { latency: u8 },
+    /// both applications end the session (disconnect unless already disconnected), the network
+    /// forgets everything in flight, both `Connection`s are `reset()` and the model starts over;
+    /// a following `Connect` opens the next session on the same objects.
+    /// `soft`: an acceptor whose application has seen nothing yet (still unconnected or only
+    /// asked for a token) is left as it is — only the connecting side gives up and tries again
+    Restart {
+        #[serde(default)]
+        soft: bool,
+    },
+    /// C04 only: a datagram that DOES carry the token the endpoint expects (on-path forger,
+    /// reflected or mangled traffic): feeding it is a valid call, so it must not panic and
+    /// whatever the endpoint sends in response must be well-formed
+    Forge { ep: u8, kind: u8, salt: u64 },
 }
 
 pub struct Dgram {
@@ -86,6 +99,7 @@ pub enum Call {
     Tick,
     SendConnless,
     Feed,
+    Reset,
 }
 
 impl Call {
@@ -98,6 +112,7 @@ impl Call {
             Call::Tick => "tick",
             Call::SendConnless => "send_connless",
             Call::Feed => "feed",
+            Call::Reset => "reset",
         }
     }
 }
@@ -136,6 +151,10 @@ pub struct World<'a> {
     pub stale: [Vec<Vec<u8>>; 2],
     pub in_suffix: bool,
     pub injecting: bool,
+    /// a token-carrying forged datagram was fed: the delivery model (C01) no longer applies
+    pub forged: bool,
+    pub tm_before: Option<bool>,
+    pub session: u32,
     /// when set, every datagram successfully sent is also recorded here (by sender)
     pub wirelog: Option<[Vec<Vec<u8>>; 2]>,
 }
@@ -224,8 +243,30 @@ impl<'a> World<'a> {
             stale: [Vec::new(), Vec::new()],
             in_suffix: false,
             injecting: false,
+            forged: false,
+            tm_before: None,
+            session: 0,
             wirelog: None,
         }
+    }
+
+    /// Forget the per-session application model of `ep` (connection object, clock and RNG stay).
+    pub(super) fn new_session_model(&mut self, ep: usize) {
+        let s = &mut self.s[ep];
+        s.called_connect = false;
+        s.ready_seen = false;
+        s.may_send = false;
+        s.closed = false;
+        s.accept_on_wire = false;
+        s.sub_vital.clear();
+        s.delivered = 0;
+        s.nonvital_ever.clear();
+        s.nonvital_pending.clear();
+        s.connless_pending.clear();
+        s.refused.clear();
+        s.ticks_in_suffix = 0;
+        s.close_reason = None;
+        s.cb.send_err_left = 0;
     }
 
     pub(super) fn pname(&self) -> &'static str {
@@ -303,6 +344,7 @@ impl<'a> World<'a> {
         f: impl FnOnce(&mut AnyConn, &mut SimCb) -> R,
     ) -> Result<R, Violation> {
         let before = self.s[ep].conn.state_name();
+        self.tm_before = self.s[ep].conn.token_mode_fixed();
         let side = &mut self.s[ep];
         side.cb.calls = 0;
         side.cb.out.clear();
@@ -365,7 +407,13 @@ impl<'a> World<'a> {
             }
         }
         if self.prop == NetProp::C04 {
-            let has_token = self.v6_has_token(ep, call, before, after);
+            let mut has_token = self.v6_has_token(ep, call, before, after);
+            if self.forged && !self.cfg.proto.is_v7() {
+                // after authenticated forged traffic the token mode is whatever the endpoint was talked into
+                if let Some(m) = self.s[ep].conn.token_mode_fixed().or(self.tm_before) {
+                    has_token = m;
+                }
+            }
             if let Some(v) = self.tap(ctx, ep, &bytes, has_token) {
                 return Some(v);
             }
@@ -610,7 +658,7 @@ impl Engine for NetEngine {
     fn info(&self) -> EngineInfo {
         let common_faults = vec![
             "fault_loss", "fault_loss_aged", "fault_duplication", "fault_reorder", "fault_send_failure",
-            "fault_clock_skew", "fault_clock_jump", "fault_weak_rng", "fault_foreign_datagram",
+            "fault_clock_skew", "fault_clock_jump", "fault_weak_rng", "fault_foreign_datagram", "fault_forged_datagram",
         ];
         let (rule, probes): (&str, Vec<&'static str>) = match self.prop {
             NetProp::C01 => (
